@@ -99,6 +99,16 @@ func TestC05(t *testing.T) {
 			c05LateLoad(r, id, endKind)
 		}
 	}
+	// (b'') call trees with precompile transactions (delegations by the signer) sprinkled over the frames:
+	// EVM state against go-ethereum, delegations against the calls made in frames that survive there
+	for g := 0; g < r.Cases(24, 1200); g++ {
+		id := fmt.Sprintf("evmtx/%d", g)
+		fidx++
+		if !r.Want(id, fidx) {
+			continue
+		}
+		c05Program(r, id)
+	}
 	// (b') the same against go-ethereum, with read-only precompile calls sprinkled over the frames
 	for g := 0; g < r.Cases(48, 2400); g++ {
 		id := fmt.Sprintf("evmq/%d", g)
@@ -347,16 +357,25 @@ func c05Program(r *report.R, id string) {
 	rng := r.Rand(id)
 	genSelfDestruct, genPokes, genCreates = true, true, true
 	defer func() { genSelfDestruct, genPokes, genCreates, genPcQueries = false, false, false, nil }()
-	n := vn.New(vn.Config{Seed: uint64(r.Seed), NumVals: 1, NumAccounts: 8})
-	withQueries := strings.HasPrefix(id, "evmq/")
-	if withQueries {
+	withTx := strings.HasPrefix(id, "evmtx/")
+	var n *vn.Node
+	var pe *pcEnv
+	if withTx {
+		// precompile transactions (delegations by the signer) sprinkled over the frames: needs validators
+		pe = newPcEnv(uint64(r.Seed), rng)
+		n = pe.n
+	} else {
+		n = vn.New(vn.Config{Seed: uint64(r.Seed), NumVals: 1, NumAccounts: 8})
+	}
+	withQueries := strings.HasPrefix(id, "evmq/") || withTx
+	if withQueries && !withTx {
 		// read-only precompile calls in between: the post-state must still be what go-ethereum
 		// computes for the same program (there the addresses are empty accounts)
 		pcs := n.App.EvmKeeper.Precompiles(addrDist, addrBank)
 		stABI, _ := stakingpc.LoadABI()
 		mk := func(a abi.ABI, to common.Address, m string, args ...any) {
 			if bz, err := a.Pack(m, args...); err == nil {
-				genPcQueries = append(genPcQueries, pcQuery{to, bz})
+				genPcQueries = append(genPcQueries, pcQuery{to, bz, false})
 			}
 		}
 		mk(pcs[addrBank].(*bankpc.Precompile).ABI, addrBank, "balances", n.Accounts[0].Eth)
@@ -364,6 +383,7 @@ func c05Program(r *report.R, id string) {
 		mk(stABI, addrStaking, "validator", n.Vals[0].ValAddr.String())
 		mk(stABI, addrStaking, "delegation", n.Accounts[2].Eth, n.Vals[0].ValAddr.String())
 	}
+	defer func() { gethWatch = nil }()
 	deployer := n.Accounts[7]
 	nfresh := 0
 	fresh := func() common.Address {
@@ -371,15 +391,48 @@ func c05Program(r *report.R, id string) {
 		return vn.DetAccount(uint64(r.Seed)^0x55, id, nfresh).Eth
 	}
 	eoas := []common.Address{n.Accounts[4].Eth, n.Accounts[5].Eth}
-	n.BeginBlock(vn.BlockOpts{})
+	if !withTx {
+		n.BeginBlock(vn.BlockOpts{})
+	}
 	for k := 0; k < 6; k++ {
 		r.Eval(1)
 		a := n.Accounts[rng.Intn(4)]
+		if withTx {
+			// what the frames may call: delegations of the signer's coins (and a query)
+			genPcQueries = nil
+			for q := 0; q < 4; q++ {
+				bz, err := pe.abiStaking.Pack("delegate", a.Eth, n.Vals[rng.Intn(3)].ValAddr.String(), big.NewInt(stakeUnit*int64(1+rng.Intn(9))))
+				if err == nil {
+					genPcQueries = append(genPcQueries, pcQuery{addrStaking, bz, true})
+				}
+			}
+			if bz, err := pe.abiStaking.Pack("delegation", a.Eth, n.Vals[0].ValAddr.String()); err == nil {
+				genPcQueries = append(genPcQueries, pcQuery{addrStaking, bz, false})
+			}
+		}
 		p := genProg(rng, 4, eoas, fresh)
 		all, err := deployProg(n, deployer, p)
 		if err != nil {
 			r.Note("deploy: %v", err)
 			continue
+		}
+		sharesBefore := map[string]sdkmath.Int{}
+		if withTx {
+			ok := true
+			for _, c := range all {
+				ok = ok && pe.approve(a, c, new(big.Int).Mul(big.NewInt(stakeUnit), big.NewInt(1_000_000)), "/cosmos.staking.v1beta1.MsgDelegate")
+			}
+			if !ok {
+				r.Note("evmtx approve failed")
+				continue
+			}
+			for _, v := range n.Vals {
+				sharesBefore[v.ValAddr.String()] = sdkmath.ZeroInt()
+				if d, found := n.App.StakingKeeper.GetDelegation(n.Ctx(), a.Addr, v.ValAddr); found {
+					sharesBefore[v.ValAddr.String()] = d.Shares.TruncateInt()
+				}
+			}
+			gethWatch = &watchTracer{watch: addrStaking}
 		}
 		to := p.addr
 		tx := n.SignEth(a, vn.EthArgs{Data: []byte{1}, Type: rng.Intn(3), Nonce: n.EthNonce(a.Eth), To: &to, Gas: uint64(400000 + rng.Intn(2_000_000)), GasPrice: big.NewInt(1_000_000_000), GasFeeCap: big.NewInt(1_000_000_000), GasTipCap: big.NewInt(1_000_000_000), Value: big.NewInt(int64(rng.Intn(500)))})
@@ -415,7 +468,7 @@ func c05Program(r *report.R, id string) {
 		dbg["gasUsed/chain"] = fmt.Sprint(ers[0].GasUsed)
 		dbg["gasUsed/reference"] = fmt.Sprint(ref.UsedGas)
 		dbg["gasLimit"] = fmt.Sprint(tx.Gas())
-		if len(ers[0].Logs) != ref.Logs {
+		if len(ers[0].Logs) != ref.Logs && !withTx {
 			r.Violation(id, fam+"|"+outcome+"|logs≠reference", fmt.Sprintf("%d logs, reference %d; %s", len(ers[0].Logs), ref.Logs, p.shape()), dbg)
 			bad = true
 		}
@@ -478,6 +531,63 @@ func c05Program(r *report.R, id string) {
 		}
 		if bad {
 			break
+		}
+		if withTx {
+			// the Cosmos side: exactly the delegations made in frames that survived in the reference execution
+			want := map[string]sdkmath.Int{}
+			made, kept := 0, 0
+			for _, c := range gethWatch.calls {
+				m, err := pe.abiStaking.MethodById(c.Input[:4])
+				if err != nil || m.Name != "delegate" {
+					continue
+				}
+				args, err := m.Inputs.Unpack(c.Input[4:])
+				if err != nil || len(args) != 3 {
+					continue
+				}
+				made++
+				if !c.Survived {
+					continue
+				}
+				kept++
+				v := args[1].(string)
+				cur, ok := want[v]
+				if !ok {
+					cur = sdkmath.ZeroInt()
+				}
+				want[v] = cur.Add(sdkmath.NewIntFromBigInt(args[2].(*big.Int)))
+			}
+			mismatch := ""
+			for _, v := range n.Vals {
+				now := sdkmath.ZeroInt()
+				if d, found := n.App.StakingKeeper.GetDelegation(ctx, a.Addr, v.ValAddr); found {
+					now = d.Shares.TruncateInt()
+				}
+				w, ok := want[v.ValAddr.String()]
+				if !ok {
+					w = sdkmath.ZeroInt()
+				}
+				if got := now.Sub(sharesBefore[v.ValAddr.String()]); !got.Equal(w) {
+					mismatch += fmt.Sprintf("validator %s: delegated %s, surviving frames delegated %s; ", v.ValAddr.String()[len(v.ValAddr.String())-6:], got, w)
+				}
+			}
+			// every surviving delegation emits one EVM log of the precompile, a dropped one none
+			if len(ers[0].Logs) != ref.Logs+kept {
+				r.Violation(id, "evm+precompile-transactions|"+outcome+"|logs≠reference+surviving-precompile-events", fmt.Sprintf("%d logs; the reference program emits %d and %d delegations survive; %s", len(ers[0].Logs), ref.Logs, kept, p.shape()), dbg)
+				break
+			}
+			if mismatch != "" {
+				r.Violation(id, "evm+precompile-transactions|"+outcome+"|delegations≠calls-in-surviving-frames", fmt.Sprintf("%d delegate calls made, %d in surviving frames: %s%s", made, kept, mismatch, p.shape()), dbg)
+				break
+			}
+			if made > 0 {
+				r.Count("evm_programs_with_precompile_transactions_matched", 1)
+				if made > kept && kept > 0 {
+					r.Count("evm_programs_with_kept_and_dropped_delegations", 1)
+				}
+				r.Nontriv(fmt.Sprintf("evm+tx|%s|failing-frames%d|made%d|kept%d", outcome, bucket(failing), bucket(made), bucket(kept)))
+			}
+			continue
 		}
 		if withQueries {
 			nq := strings.Count(p.shape(), "pcquery")
